@@ -82,8 +82,7 @@ Theorem config_value_spec sections section k dflt :
 Proof.
   unfold config_value, config_raw, config_lookup.
   destruct (dget section sections) as [[d0 a0|m]|]; try (destruct dflt; reflexivity).
-  destruct (dget k m) as [[d a|m']|]; try (destruct dflt; reflexivity).
-  destruct a; reflexivity.
+  destruct (dget k m) as [[d a|m']|]; destruct dflt; reflexivity.
 Qed.
 
 (* get_config_value_as_dict: the stored map itself; the default for a missing entry or (when one is given) for a non-map;
